@@ -2,6 +2,7 @@
    fields; the result is one line of bytes.  All parsing and printing is Gallina, so that the
    OCaml driver only moves bytes. *)
 From BCL Require Import Model.DumpLoad Model.Lexer Model.Api.
+From BCL Require Spec.Format.
 Open Scope N_scope.
 
 Definition sp : N := 32.
@@ -147,6 +148,40 @@ Definition suite_parse (c : bytes) : bytes :=
   | _ => bs "bad-case"
   end.
 
+(* independent decoder of Spec/Format.v on real dump bytes; and the documented encoder on parts *)
+Definition file_of_parts (p : parts) : Format.file :=
+  {| Format.f_name := p_name p; Format.f_code := p_code p; Format.f_consts := p_consts p;
+     Format.f_pos := p_pos p; Format.f_lfs := p_lfs p |}.
+Definition parts_of_file (f : Format.file) : parts :=
+  {| p_name := Format.f_name f; p_code := Format.f_code f; p_consts := Format.f_consts f;
+     p_pos := Format.f_pos f; p_lfs := Format.f_lfs f |}.
+Definition suite_fmtdecode (c : bytes) : bytes :=
+  match Format.decode c with
+  | Some (f, r) => bs "ok " ++ show_parts (parts_of_file f) ++ bs " rest=" ++ dec_of_N (nlen r)
+  | None => bs "none"
+  end.
+Definition suite_fmtencode (c : bytes) : bytes := hex_of_bytes (Format.encode (file_of_parts (read_parts (fields c)))).
+
+Definition show_run (lfs_ : list N) (o : list (otag * bytes)) (rr : run_result) : bytes :=
+  let warn := flat_map (fun w => bs "WARNING: line " ++ lc_format lfs_ (fst w) ++ bs ": " ++ snd w ++ [10]) (rr_warn rr) in
+  let cls := match rr_res rr with
+             | VOk => bs "class=ok"
+             | VErr pos msg => bs "class=runtime err=" ++ hex_of_bytes (bs "runtime error: line " ++ lc_format lfs_ pos ++ bs ": " ++ msg)
+             | VInternal msg => bs "class=internal err=" ++ hex_of_bytes msg
+             | VPanic k => bs "class=panic:" ++ panic_name k
+             end in
+  cls ++ bs " out=" ++ hex_of_bytes (out_bytes o) ++ bs " log=" ++ hex_of_bytes warn
+  ++ bs " blocks=" ++ show_blocks (rr_blocks rr) ++ bs " binding=" ++ show_binding (rr_binding rr).
+
+(* loadexec: LoadProg on the bytes, then Execute *)
+Definition suite_loadexec (c : bytes) : bytes :=
+  match load_bytes c with
+  | Ok p => let g := prog_of_parts p in let rr := execute g false false in
+            show_run (g_lfs g) (rr_out rr) rr ++ bs " parts=" ++ show_parts p
+  | Err l => bs "class=loaderr " ++ l
+  | Panic k => bs "class=panic:" ++ panic_name k
+  end.
+
 Definition run_suite (name : bytes) (c : bytes) : bytes :=
   if bytes_eqb name (bs "dump") then suite_dump c
   else if bytes_eqb name (bs "load") then suite_load c
@@ -156,4 +191,7 @@ Definition run_suite (name : bytes) (c : bytes) : bytes :=
   else if bytes_eqb name (bs "linecol") then suite_linecol c
   else if bytes_eqb name (bs "interp") then suite_interp c
   else if bytes_eqb name (bs "parse") then suite_parse c
+  else if bytes_eqb name (bs "fmtdecode") then suite_fmtdecode c
+  else if bytes_eqb name (bs "fmtencode") then suite_fmtencode c
+  else if bytes_eqb name (bs "loadexec") then suite_loadexec c
   else bs "unknown-suite".
